@@ -189,6 +189,15 @@ def _main():
                 attempt(f"C40.bounded.operator.settings_used_declared_only{tag}", "eko.runner.commons:interpolator", settings, hand)
 
 
+    # the settings are those of the card at hand whatever cards were seen before in the same process: same nodes and degree, the other kind of interpolation
+    for nodes_kind, nodes in (("geomspace", np.geomspace(1e-3, 1.0, 7)), ("linspace", np.linspace(0.1, 1.0, 7))):
+        for k, (is_log, degree) in enumerate(((True, 2), (False, 2), (True, 2), (False, 3), (True, 3), (False, 2))):
+            seq = example.operator()
+            seq.configs.interpolation_is_log = is_log
+            seq.configs.interpolation_polynomial_degree = degree
+            seq.xgrid = interpolation.XGrid(nodes, log=is_log)
+            attempt(f"C40.bounded.operator.settings_used_in_sequence[{nodes_kind},#{k},log={is_log},degree={degree}]", "eko.runner.commons:interpolator", settings, seq)
+
     # ---- ad-hoc dict-like classes -----------------------------------------------------------------------------------------------------------------------
     class Colour(enum.Enum):
         RED = "red"
